@@ -10,6 +10,7 @@ type ctxData struct{}
 
 func registerExtra(e *Engine) {
 	registerLogging(e)
+	registerParams(e)
 	registerPalomaHelpers(e)
 	registerSDK(e)
 	registerAddr(e)
@@ -57,6 +58,34 @@ func registerPalomaHelpers(e *Engine) {
 		copy(cp, cells)
 		return &SymStr{parts: []strPart{{s: "utf8~"}, {kind: "b", cells: cp}}}
 	})
+}
+
+func registerParams(e *Engine) {
+	ss := "(github.com/cosmos/cosmos-sdk/x/params/types.Subspace)."
+	pss := "(*github.com/cosmos/cosmos-sdk/x/params/types.Subspace)."
+	e.reg(ss+"HasKeyTable", func(fr *frame, args []value) value { return true })
+	e.reg(ss+"WithKeyTable", func(fr *frame, args []value) value { return args[0] })
+	e.reg(ss+"Name", func(fr *frame, args []value) value { return "params" })
+	set := func(fr *frame, args []value) value {
+		ps := args[2].(iface)
+		fr.p.hostState["paramset:"+ps.t.String()] = deepCopy(ps.v, map[*value]*value{})
+		return nil
+	}
+	get := func(fr *frame, args []value) value {
+		ps := args[2].(iface)
+		snap, ok := fr.p.hostState["paramset:"+ps.t.String()]
+		if !ok {
+			panic(targetPanic{errValue(fr, "params not set (UnmarshalJSON cannot decode empty bytes)")})
+		}
+		src := snap.(*value)
+		dst := ps.v.(*value)
+		store(derefType(ps.t), dst, deepCopy(*src, map[*value]*value{}))
+		return nil
+	}
+	e.reg(ss+"SetParamSet", set)
+	e.reg(ss+"GetParamSet", get)
+	e.reg(pss+"SetParamSet", set)
+	e.reg(pss+"GetParamSet", get)
 }
 
 func registerLogging(e *Engine) {
